@@ -139,6 +139,17 @@ func (c *caseCtx) partPush(spec caseSpec, hostile bool) {
 	c.srv.WithVerify = r.Intn(2) == 0
 	batch := []int{1, 2, 3, 100}[r.Intn(4)]
 	c.wire(g.Dir, bare, "origin", true)
+	// the server may prescribe the Content-Type of an upload; the client's own content-type
+	// detection setting (on by default, "false" is what git-lfs recommends after a 422) must not override it
+	ctMode := "ct-default"
+	if c.idx%3 != 0 {
+		c.srv.ActionContentType = "application/x-verif-prescribed"
+		ctMode = "ct-offered"
+		if c.idx%3 == 2 {
+			c.must(g.Dir, "config", "lfs.contenttype", "false")
+			ctMode = "ct-offered+detection-off"
+		}
+	}
 	c.must(g.Dir, "config", "lfs.transfer.batchsize", fmt.Sprint(batch))
 	mode := pushFaultModes[r.Intn(len(pushFaultModes))]
 	fs := &faultScript{mode: mode, c: c}
@@ -166,7 +177,7 @@ func (c *caseCtx) partPush(spec caseSpec, hostile bool) {
 		branches = hostileNames // the hostile part pushes hostile names only
 		c.notef("hostile refs: %q", hostileNames)
 	}
-	c.class = fmt.Sprintf("%s/batch%d/verify-%v/fault-%s", c.part, batch, c.srv.WithVerify, mode)
+	c.class = fmt.Sprintf("%s/batch%d/verify-%v/fault-%s/%s", c.part, batch, c.srv.WithVerify, mode, ctMode)
 	c.notef("history ops: %d, branches %q, batchsize %d, verify actions %v, fault script %s", len(g.Log), branches, batch, c.srv.WithVerify, mode)
 	pick := func() string { return branches[r.Intn(len(branches))] }
 	up := func(refs ...string) *expect { return &expect{op: "upload", refs: refs} }
